@@ -35,7 +35,7 @@ PROPS = {
                 "must equal their snapshots at that and every later step. Distinct/non-trivial as for C11.",
         "probes": ["C09.controlled_rotation_near_2pi", "C09.merge_or_cancel_happened", "C09.reindex_with_gaps",
                    "C09.split_multiple_parts", "C09.same_object_both_sides", "C09.stack_same_circuit_twice",
-                   "C09.equal_controlled_rotations_compared", "C09.trim_trivial_removed_qubits"],
+                   "C09.equal_controlled_rotations_compared", "C09.trim_trivial_removed_qubits", "C09.clifford_angle_off_by_less_than_tolerance", "C09.clifford_angle_many_turns"],
         "components_real": ["tangelo.linq.Gate (inverse, ==)", "tangelo.linq.Circuit and module-level passes",
                             "decompose_gate_to_cliffords"],
         "components_stub": [],
@@ -209,7 +209,7 @@ PROPS = {
                 "probabilities out of range, noise without shots, noise on sympy, noise + CMEASURE) with the model state checked "
                 "afterwards. Distinct = (step kind, width, #noisy gates / shots, channel kinds) tuples; non-trivial = run with >=3 "
                 "steps of >=2 kinds or >=1 refusal.",
-        "probes": ["C19.noise_on_multi_qubit_gate", "C19.zero_rate_model", "C19.noisy_mid_circuit.plain", "C19.noisy_mid_circuit.save", "C19.noisy_mid_circuit.desired"],
+        "probes": ["C19.noise_on_multi_qubit_gate", "C19.zero_rate_model", "C19.noisy_mid_circuit.plain", "C19.noisy_mid_circuit.save", "C19.noisy_mid_circuit.desired", "C19.model_extended_after_binding", "C19.binding_semantics_decided.live"],
         "components_real": ["NoiseModel, translate_c_to_cirq (channel insertion), CirqSimulator density-matrix route + sample_density_matrix, "
                             "Backend noise/shots validation, cirq DensityMatrixSimulator"],
         "components_stub": [],
